@@ -1270,7 +1270,7 @@ def rule_lnar(ctx):
     n_entries = _report_table_conflicts(
         ctx, "LNARparser", tb, lambda name, key: (sname.get(key[0], str(key[0])), tname.get(key[1], str(key[1]))),
         tag_fn.where())
-    ctx.floor(RULE, 100, n_entries, "LNARparser explicit dispatch entries")
+    ctx.floor(RULE, 90, n_entries, "LNARparser explicit dispatch entries")
     # every row/column that can be indexed at run time is initialised
     unset = sorted(k for k in sp.unset_reads)
     unset_reach = [(n, k) for n, k in unset if k[0] in reach or k[0] == A.error]
@@ -1444,7 +1444,7 @@ def rule_dataparser(ctx):
     sname = A.states
     tname = {e["v"]: e["name"] for e in X["tags_e"]}
     n_init = _check_init_calls(ctx, tb, X, sname, tname, A.error)
-    ctx.floor(RULE, 250, n_init, "DataParser init() calls")
+    ctx.floor(RULE, 220, n_init, "DataParser init() calls")
     configs, edges, reach, n_trans = check_automaton(ctx, RULE, A)
     for k in sp.used_fns:
         ctx.saw(k)
@@ -1874,8 +1874,8 @@ def rule_xsd_gkf(ctx):
                            "leniency": lenient})
         if lenient:
             ctx.note("GKFparser <%s>: %s" % (e, "; ".join(lenient)))
-    ctx.floor(RULE, 20, n_children, "GKFparser elements compared with the schema (children)")
-    ctx.floor(RULE, 19, n_attrs, "GKFparser elements compared with the schema (attributes)")
+    ctx.floor(RULE, 17, n_children, "GKFparser elements compared with the schema (children)")
+    ctx.floor(RULE, 16, n_attrs, "GKFparser elements compared with the schema (attributes)")
 
 
 # --------------------------------------------------------------------------- C12 vocabulary
@@ -2099,7 +2099,7 @@ def rule_xsd_adjxml(ctx):
         n += 1
         ctx.report(RULE, "adjxml:vocabulary:%s" % name, not problems,
                    where.get(name, tag_fn.where()), anchor.short, msg="; ".join(problems), detail=member)
-    ctx.floor(RULE, 95, n, "adjustment-XML element names compared")
+    ctx.floor(RULE, 80, n, "adjustment-XML element names compared")
 
 
 # --------------------------------------------------------------------------- GKFparser: error escape
